@@ -379,6 +379,24 @@ func runC13(w *core.WorkerCtx, idx int) *core.CaseResult {
 		before = st.ScrapeTimes
 	}
 
+	// 2b. a request the proxy rejects by itself (unknown job: no client) is not a scrape attempt
+	if assigned && c.Kind == "none" {
+		q := url.Values{}
+		q.Set("_jobName", "job-without-client")
+		q.Set("_hash", fmt.Sprint(h))
+		q.Set("_scheme", "http")
+		o3 := scrape(fmt.Sprintf("http://%s/metrics?%s", host, q.Encode()))
+		if o3.Status == 200 && !o3.Aborted {
+			res.Violate("C13/prom-side-success/unknown-job", "a request for a job the proxy has no client for was answered 200")
+		}
+		if st := status(); st != nil {
+			res.AddStat("rejected_requests_checked", 1)
+			if st.ScrapeTimes != before || string(st.Health) != "up" {
+				res.Violate("C13/counter/rejected-request", "a request the proxy rejected without contacting the target changed the status: ScrapeTimes %d -> %d, health %q", before, st.ScrapeTimes, st.Health)
+			}
+		}
+	}
+
 	// 3. recovery: a healthy scrape again
 	if c.Kind == "stop" {
 		_, _, _ = rg.in.Call("POST", "/api/v1/status/extra_config/", &prom.ExtraConfig{StopScrapeReason: ""}, nil)
